@@ -16,6 +16,7 @@ import tracecheck as tc
 PKG = "pkg/controller/pod-eni"
 DROP = ("seq", "scen", "src", "live", "requeue", "why")
 D10 = {("Unbind", "Detaching"), ("Initial", "Detaching"), ("Binding", "Detaching")}
+STUCK = "initial_record_of_vanished_pod_attached_elsewhere"
 
 
 def strict():
@@ -139,7 +140,7 @@ def signature(t, line):
         p = pods.get(n)
         if rec["ex"] and not rec["del"] and rec["phase"] == "" and p and p["ex"] and p.get("run", True) and p["uid"] != rec["uid"] \
                 and any(enis.get(a["e"], 0) not in (0, p["node"]) for a in rec["allocs"]):
-            return "initial_record_of_vanished_pod_attached_elsewhere"
+            return STUCK
     return "quiescent"
 
 
@@ -168,11 +169,13 @@ def run(ctx, prop, relevant):
             elif r["ev"] == "reset":
                 for x in r["enis"]:
                     max_eni = max(max_eni, x["e"])
-    rej = tc.validate_many(ctx, "PodEni_trace", trace_cfg(prop, max_eni), [strip(t) for t in traces], max_reruns=6, chunk=150, timeout=1500)
+    rej = tc.validate_many(ctx, "PodEni_trace", trace_cfg(prop, max_eni), [strip(t) for t in traces], max_reruns=40, chunk=150, timeout=1500)
     for k, line in rej:
         t = traces[k]
         bad = t[line - 1] if line - 1 < len(t) else {}
         label = "%s_at_%s%s" % (prop.lower(), bad.get("ev", "?"), ("_" + bad["op"]) if "op" in bad else "")
+        if signature(t, line) == STUCK:      # D18 (known_findings.json): only this exact history shape gets this clause label
+            label = "%s_stuck_initial_record_attached_elsewhere" % prop.lower()
         add_violation(ctx, label, dict(failing_line=line, event=bad, source=t[0].get("src"), signature=signature(t, line), reset=t[0], trace=strip(t[:line])),
                       what="line %d of a %s scenario: %s" % (line, t[0].get("src"), json.dumps({k: v for k, v in bad.items() if k not in ("seq",)})[:400]))
     tagc, srcs = {}, {}
